@@ -7,7 +7,7 @@ ID = "C05"
 MODULE = "JmesVerif.Props.C05"
 THEOREMS = ["C05_parser_fuel_sufficient", "C05_lexer_fuel_stable", "C05_number_tokens_no_overflow", "C05_slice_total",
             "C05_builtins_no_unreachable", "C05_validator_no_panic", "C05_search_terminates", "C05_interp_fuel_monotone",
-            "C05_omega_diverges"]
+            "C05_omega_diverges", "C05_translated_code_no_fault"]
 TRUSTED_BASE = [
     "Lean 4.33 kernel; axioms propext, Classical.choice, Quot.sound only",
     "hand-written models (lexer, parser, interpreter, slices, builtins) tied to the code by the parse/eval/slice streams of this run; every "
